@@ -213,6 +213,13 @@ def run(ctx):
     # history of a balance slot may be dropped only once it is outside the window (is_old / pruning guards exactly the window)
     import windowrules as W7
     W7.clause_history_window(R, F)
+    # ... and the rollback of a balance slot restores the *persisted* value it had before the orphaned deposit: the history of
+    # a key is seeded from the value table (not from the history table), every touched key is visited by the table's reorg,
+    # and a commit writes each key's latest value (round-6 seed C07-history-seeded-from-history-table: owned by C13, a
+    # necessary condition of "conserved across reorgs")
+    T.clause_retrieve_cache(R, F)
+    W7.clause_table_reorg_visits_all(R, F)
+    T.clause_commit_per_key(R, F)
     # "no transaction a user can submit can create or destroy tokens": the public simulation end points execute arbitrary calls
     # with any sender (the indexer address included); nothing they do may reach the database (no commit capability, no store
     # into a state container) - otherwise eth_callMany(from = indexer, mint(..)) mints
